@@ -9,6 +9,13 @@
    set - so a model whose invariants went vacuous fails the run.  Registers are per worker: -workers 1.   *)
 EXTENDS AsyncIOSched, TLCExt
 
+CONSTANTS Variants,        \* the variants explored
+          Family(_),       \* variant -> set of scenarios [Items -> item scenario]
+          OwnSets(_, _)    \* variant, scenario -> the sets of foreign threads that run an event loop of their own
+
+Init == /\ MonInit
+        /\ \E v \in Variants : \E s \in Family(v) : \E o \in OwnSets(v, s) : MechInitFor(v, s, o)
+
 Both == {"aio", "ts"}
 F1 == {"F"}
 NoOwn(v, s)     == {{}}                                          \* no foreign thread runs a loop of its own
@@ -27,7 +34,7 @@ One(K, D, W, C) == Scns(ItemScn(K, D, W, C), {Absent})
 AllOne == One(Both, {0, 1, 2}, {0, 1, 2}, TsCombos)
 
 (* ---- families of the negative controls (small, each contains a refuting scenario) --------- *)
-ControlFam(v) == CASE v = "caller" -> One({"ts"}, {0, 1}, {0, 1}, CForeign)
+ControlFam(v) == CASE v = "caller" -> One({"ts"}, {0, 1}, {0}, CForeign)
                    [] v = "early"  -> One(Both, {2}, {0}, CNone)
                    [] v = "lose"   -> One({"ts"}, {1}, {0}, CNone)
                    [] v = "nowake" -> One({"ts"}, {0, 1}, {0}, {<<"F", "none">>})
@@ -56,6 +63,15 @@ FamG(v) == Scns(ItemScn({"ts"}, {0, 1}, {0, 1}, CG), {Absent} \cup ItemScn({"ts"
 FamGExport(v) == FamG(v)
 \* three items (simulation)
 FamThree(v) == Scns(ItemScn(Both, {0, 1, 2}, {0, 1}, TsCombos), ItemScn(Both, {0, 1}, {0, 1}, CSmall))
+
+\* the first run of a check: the replayer's family is only ENUMERATED (variant "own": exported from the initial
+\* states, no steps - action constraint NoOwnSteps), the fault variants are explored (negative controls)
+FamExportQuickC(v) == IF v = "own" THEN FamExportQuick(v) ELSE ControlFam(v)
+FamExportC(v)      == IF v = "own" THEN FamExport(v) ELSE ControlFam(v)
+FamGExportC(v)     == IF v = "own" THEN FamGExport(v) ELSE ControlFam(v)
+OwnExportC(v, s)   == IF v = "own" THEN OwnExport(v, s) ELSE OwnCaller(v, s)
+NoOwnSteps == variant # "own"
+ExportOwn  == (variant = "own") => ExportScn
 
 (* ---- invariants of the design run ---------------------------------------------------------------- *)
 Own == variant = "own"
